@@ -18,7 +18,7 @@ PREFIX_PAIRS = [('a/', 'b/'), ('a/', 'b/'), ('a/', 'b/'), ('i/', 'w/'), ('c/', '
 
 
 def plan(ctx):
-    n = ctx.n(2500, 60000)
+    n = ctx.n(7000, 120000)
     return [('case', engine.stable_hash((ctx.seed, 'c14', i))) for i in range(n)]
 
 
